@@ -126,6 +126,24 @@ type GenCtx struct {
 	Defs map[string]*Node
 	// NoValue forbids the value keyword (PUT), NoKey forbids key (REMOVE)
 	NoValue, NoKey bool
+	// RefBias: percentage of expression draws that use an alias of the wanted
+	// type when one is in scope
+	RefBias int
+}
+
+// biasedRef returns a reference to an alias of type ty with probability RefBias%.
+func (c *GenCtx) biasedRef(t *rapid.T, ty Ty) *Node {
+	if c.RefBias <= 0 {
+		return nil
+	}
+	refs := c.refsOf(ty)
+	if len(refs) == 0 {
+		return nil
+	}
+	if rapid.IntRange(0, 99).Draw(t, "useRef") >= c.RefBias {
+		return nil
+	}
+	return Ref(rapid.SampledFrom(refs).Draw(t, "biasedRef"), ty)
 }
 
 func (c *GenCtx) refsOf(t Ty) []string {
@@ -166,6 +184,9 @@ func (c *GenCtx) textLiteral(t *rapid.T) string {
 }
 
 func (c *GenCtx) GenText(t *rapid.T, depth int) *Node {
+	if r := c.biasedRef(t, TyText); r != nil {
+		return r
+	}
 	max := 7
 	if depth <= 0 {
 		max = 2
@@ -212,6 +233,9 @@ func (c *GenCtx) GenText(t *rapid.T, depth int) *Node {
 }
 
 func (c *GenCtx) GenInt(t *rapid.T, depth int) *Node {
+	if r := c.biasedRef(t, TyInt); r != nil {
+		return r
+	}
 	max := 6
 	if depth <= 0 {
 		max = 2
@@ -252,6 +276,9 @@ func (c *GenCtx) GenInt(t *rapid.T, depth int) *Node {
 var floatLits = []string{"0.5", "1.5", "2.0", "0.25", "2.5", "3.0", "0.75", "10.0"}
 
 func (c *GenCtx) GenFloat(t *rapid.T, depth int) *Node {
+	if r := c.biasedRef(t, TyFloat); r != nil {
+		return r
+	}
 	max := 5
 	if depth <= 0 {
 		max = 1
@@ -360,7 +387,18 @@ func (c *GenCtx) GenBool(t *rapid.T, depth int) *Node {
 			}
 		}
 	}
-	if !c.NoKey && rapid.IntRange(0, 9).Draw(t, "leafIsKeyAtom") < 4 {
+	if r := c.biasedRef(t, TyBool); r != nil {
+		// a Boolean alias stands as an operand of & | and or, or under !
+		switch rapid.IntRange(0, 2).Draw(t, "boolRefShape") {
+		case 0:
+			return Bin(rapid.SampledFrom([]string{"&", "|", "and", "or"}).Draw(t, "boolRefOp"), r, c.GenBool(t, depth-1))
+		case 1:
+			return Bin(rapid.SampledFrom([]string{"&", "|", "and", "or"}).Draw(t, "boolRefOp2"), c.GenBool(t, depth-1), r)
+		default:
+			return Not(r)
+		}
+	}
+	if !c.NoKey && rapid.IntRange(0, 9).Draw(t, "leafIsKeyAtom") < 4-c.RefBias/20 {
 		return c.KeyAtom(t)
 	}
 	switch rapid.IntRange(0, 7).Draw(t, "boolLeaf") {
